@@ -5,6 +5,8 @@ package main
 
 import (
 	"bytes"
+	"fmt"
+	"strings"
 	"math/big"
 	"math/rand"
 	"sort"
@@ -271,7 +273,9 @@ func genTree(r *rand.Rand, n int, mode string) *treeu.JNode {
 		// pick a name not yet used among the siblings (unless duplicates are wanted)
 		var nm []byte
 		for try := 0; try < 40; try++ {
-			if mode == "wf7" {
+			if mode == "big" { // unique names of 4..14 bytes: the stream exceeds the decoder's 4 KiB buffer
+				nm = []byte(fmt.Sprintf("f%d_%s", i, strings.Repeat("x", r.Intn(9))))
+			} else if mode == "wf7" {
 				nm = lib.Pick(r, [][]byte{[]byte("a"), []byte("b"), []byte("c"), []byte("ab"), []byte("abc"), []byte(""), []byte("main"), {0x01, 0x02}, []byte("z")})
 			} else if r.Intn(40) == 0 {
 				nm = longName(r)
@@ -412,6 +416,13 @@ func gen(r *rand.Rand, idx int, tier string) Input {
 		n = lib.Range(r, 13, 40)
 	case 3:
 		n = lib.Range(r, 41, 200)
+	}
+	if in.Mode == "wf" && r.Intn(70) == 0 { // encoded stream well above 4096 bytes (bufio boundary inside names/keys)
+		n = lib.Range(r, 500, 1200)
+		in.Tree = genTree(r, n, "big")
+		in.Cap = lib.Pick(r, []int{n + 1, n + 1, 2048, n - 1, n / 2})
+		in.Pre = nil
+		return in
 	}
 	if in.Mode == "wf" && r.Intn(25) == 0 {
 		n = lib.Range(r, 133, 180)
